@@ -28,7 +28,12 @@ from vf.core import fs
 RULE = ('a case = (space, elements x,y,z, scalar a) evaluated for inner/norm/dist; signature = '
         '(space kind, weighting kind, exponent class, dtype class, layout, size regime vs the '
         '50000 tensordot threshold, boundary-flag pattern / nesting shape); non-trivial when the '
-        'reference value of the inner product or norm is non-zero.')
+        'reference value of the inner product or norm is non-zero. uniform_discr spaces (kind U) '
+        'are sent to the model as constructor arguments (the model derives node placement, '
+        'fractions, cell volume: mkAxis; additionally compared directly with '
+        'partition.boundary_cell_fractions / cell_volume through the driver op `info`); spaces '
+        'built from an explicit grid inside a larger box (kind G) are sent with fractions '
+        'computed by the harness from the node coordinates, i.e. they bypass mkAxis by design.')
 TRUSTED = ['NumPy dot/vdot/tensordot/linalg.norm/abs/power/sum/max and BLAS nrm2 modelled as the '
            'exact sums / maxima they specify',
            'custom inner/norm/dist callables are user code: only delegation is tested']
@@ -252,6 +257,113 @@ def leaf_weights(d):
         out.append(v)
     return out
 
+
+
+def axis_fracs(d):
+    """[(frac_l, frac_r)] of a uniform-grid discretized description (Fractions; (1, 1) for a
+    one-node axis)."""
+    out = []
+    for sizes, h, ext in axis_geom(d):
+        out.append((Fraction(1), Fraction(1)) if len(sizes) == 1 else (sizes[0] / h, sizes[-1] / h))
+    return out
+
+
+def _isclose1(f):
+    return abs(float(f) - 1.0) <= 1e-8 + 1e-5
+
+
+def near1(d):
+    """Some boundary fraction lies within np.isclose's tolerance of 1 without being 1 (the
+    code then skips the scaling of that side: ODL's documented fuzziness, not a violation)."""
+    if d[0] == 'P':
+        return any(near1(c) for c in d[1])
+    if d[0] not in ('U', 'G'):
+        return False
+    return any(f != 1 and abs(float(f) - 1.0) < 1e-4 for fr in axis_fracs(d) for f in fr)
+
+
+def scaled(d):
+    """Does the code scale the boundary entries of this leaf (independent re-statement of
+    `is_uniform and not is_uniformly_weighted`)?"""
+    if d[0] not in ('U', 'G') or d_p(d) == INF:
+        return False
+    return not all(_isclose1(f) for fr in axis_fracs(d) for f in fr)
+
+
+def _wkind(wt):
+    return 'const' if wt is None or wt[0] == 'c' else 'arr'
+
+
+def branches_of(d, op):
+    """Keys of the model branches (functions x match arms of Model/Weighting.lean) that the
+    evaluation of `op` on the space `d` runs through."""
+    k = d[0]
+    pc = pclass(d_p(d))
+    if k == 'P':
+        wk = _wkind(d[2])
+        if op == 'inner':
+            out = ['pInner/' + wk]
+            for c in d[1]:
+                out += branches_of(c, 'inner')
+            return out
+        if op == 'dist' and wk == 'const':
+            out = ['pDistConst/' + pc]
+        else:
+            out = (['pDist/arr->norm'] if op == 'dist' else []) + ['pNorm/{}/{}'.format(wk, pc)]
+        for c in d[1]:
+            out += branches_of(c, 'norm')
+        return out
+    wk = _wkind(d[d_wt(d)])
+    code = []
+    if op == 'inner':
+        # branch of the CODE's _inner_default (one sum in the model)
+        size = int(np.prod(leaf_shape(d)))
+        code = ['code/_inner_default/' + ('vdot' if np.issubdtype(d_dtype(d), np.complexfloating)
+                                          else ('tensordot' if size > 50000 else 'dot'))]
+    if k == 'T':
+        if op == 'inner':
+            return ['tInner/' + wk] + code
+        if op == 'dist':
+            return ['tDist/const/' + pc] if wk == 'const' else ['tDist/arr->norm',
+                                                                'tNorm/arr/' + pc]
+        return ['tNorm/{}/{}'.format(wk, pc)]
+    sc = 'scaled' if scaled(d) else ('unscaled' if k != 'N' else 'nonuniform')
+    out = []
+    if k == 'U':
+        for a, b, n, l, r in d[1]:
+            out.append('mkAxis/' + ('n1' if n == 1 else 'flags{}{}'.format(int(l), int(r))))
+        out.append('defaultWeight/' + ('given' if d[4] is not None else
+                                        ('inf' if d[5] == INF else 'cellvolume')))
+    if near1(d):
+        out.append('close1/near-1')
+    if op == 'inner':
+        return out + ['dInner/{}/{}'.format(sc, wk), 'tInner/' + wk] + code
+    if op == 'dist':
+        return out + ['dDist/{}/{}'.format(sc, wk)] + (
+            ['tDist/const/' + pc] if wk == 'const' else ['tDist/arr->norm', 'tNorm/arr/' + pc])
+    return out + ['dNorm/{}/{}'.format(sc, wk), 'tNorm/{}/{}'.format(wk, pc)]
+
+
+def _expected_branches():
+    ps = ['1', '2', 'inf', 'gen']
+    out = ['code/_inner_default/dot', 'code/_inner_default/vdot',
+           'code/_inner_default/tensordot', 'tInner/const', 'tInner/arr', 'pInner/const', 'pInner/arr', 'tDist/arr->norm',
+           'pDist/arr->norm', 'inner/notimpl', 'close1/near-1', 'info/uniformDiscr',
+           'defaultWeight/given', 'defaultWeight/inf', 'defaultWeight/cellvolume',
+           'mkAxis/n1', 'mkAxis/flags00', 'mkAxis/flags01', 'mkAxis/flags10', 'mkAxis/flags11',
+           'dDist/nonuniform/const', 'dNorm/nonuniform/const', 'dInner/nonuniform/const']
+    for wk in ['const', 'arr']:
+        for pc in ps:
+            out += ['tNorm/{}/{}'.format(wk, pc), 'pNorm/{}/{}'.format(wk, pc)]
+        for sc in ['scaled', 'unscaled']:
+            out += ['dInner/{}/{}'.format(sc, wk), 'dNorm/{}/{}'.format(sc, wk),
+                    'dDist/{}/{}'.format(sc, wk)]
+    for pc in ps:
+        out += ['tDist/const/' + pc, 'pDistConst/' + pc]
+    return out
+
+
+EXPECTED_BRANCHES = _expected_branches()
 
 def is_exact(d):
     """All weights dyadic with few bits: float arithmetic of inner products is exact."""
@@ -507,6 +619,8 @@ def tensor_zoo(ctx, thr):
                         bigs.append(('T', shape, dt, layout, mk_wt(rng, wk, shape, dt), p))
     rng.shuffle(bigs)
     keep = [('T', (thr,), 'float64', 'C', None, 2), ('T', (thr + 1,), 'float64', 'C', None, 2),
+            ('T', (thr + 2,), 'float64', 'C', ('c', 0.5), 2),
+            ('T', (thr + 1,), 'float32', 'C', None, 2),
             ('T', (thr // 250 + 1, 250), 'float64', 'F', ('c', 2.0), 2),
             ('T', (thr // 250 + 1, 250), 'float64', 'C',
              mk_wt(rng, 'array', (thr // 250 + 1, 250), 'float64'), 2)]
@@ -560,8 +674,11 @@ def discr_zoo(ctx):
         for l, r in flags:
             for wk in ['def', 'def', 'const', 'array', 'one', 'const_gen']:
                 for p in [2, 2, 1, INF, 1.5, 3]:
-                    for dt in ['float64', 'complex128']:
-                        if quick and rng.random() > (0.22 if p == 2 else 0.06):
+                    for dt in ['float64', 'complex128', 'int64', 'float32', 'complex64']:
+                        if quick and rng.random() > ((0.22 if p == 2 else 0.06) *
+                                                     (1.0 if dt == 'float64' else 0.5)):
+                            continue
+                        if dt == 'int64' and wk == 'const_gen':
                             continue
                         exact = rng.random() < 0.7
                         if exact:
@@ -570,13 +687,18 @@ def discr_zoo(ctx):
                             a = rng.choice([0.0, -1.3, 0.1])
                             b = a + rng.choice([1.0, 0.7, 3.3, 10.0])
                         wt = None if wk == 'def' else (('c', 1.0) if wk == 'one' else
-                                                       mk_wt(rng, wk, (n,)))
+                                                       mk_wt(rng, wk, (n,), dt))
                         out.append(('U', [(a, b, n, l, r)], dt, 'C', wt, p))
     # cell volume exactly 1 with nodes on the boundary (fixed finding C02-F1: the constant 1.0
     # used to be taken for 'unweighted' and the boundary fractions were dropped)
     for n, l, r in [(5, 1, 1), (3, 1, 0), (4, 0, 1)]:
         length = (n - 1) if (l and r) else (2 * n - 1) / 2.0
         out.append(('U', [(0.0, float(length), n, l, r)], 'float64', 'C', None, 2))
+    # integer dtype with nodes on the boundary (fixed finding C02-F5: the scaled boundary values
+    # used to be truncated inside an integer copy)
+    for n, l, r, p in [(5, 1, 1, 2), (4, 1, 0, 2), (3, 0, 1, 1), (5, 1, 1, 3)]:
+        a, b = exact_extent(rng, n, l, r)
+        out.append(('U', [(a, b, n, l, r)], 'int64', 'C', None, p))
     # 2-d: all 16 flag combinations
     combos = list(itertools.product(flags, flags))
     for f0, f1 in combos:
@@ -589,9 +711,9 @@ def discr_zoo(ctx):
                 a0, b0, a1, b1 = -0.3, 1.1, 0.0, 2.7
             wk = rng.choice(['def', 'def', 'def', 'const', 'array'])
             p = rng.choice([2, 2, 2, 1, 3, INF])
-            dt = rng.choice(['float64', 'float64', 'complex128', 'float32'])
+            dt = rng.choice(['float64', 'float64', 'complex128', 'float32', 'int64', 'complex64'])
             layout = rng.choice(['C', 'F'])
-            wt = None if wk == 'def' else mk_wt(rng, wk, (n0, n1))
+            wt = None if wk == 'def' else mk_wt(rng, wk, (n0, n1), dt)
             out.append(('U', [(a0, b0, n0) + f0, (a1, b1, n1) + f1], dt, layout, wt, p))
     # 3-d sample
     for rep in range(3 if quick else 24):
@@ -601,9 +723,21 @@ def discr_zoo(ctx):
             l, r = rng.choice(flags)
             a, b = exact_extent(rng, n, l, r)
             specs.append((a, b, n, l, r))
-        out.append(('U', specs, 'float64', rng.choice(['C', 'F']), None, rng.choice([2, 2, 1])))
+        out.append(('U', specs, rng.choice(['float64', 'float64', 'int64', 'float32']),
+                    rng.choice(['C', 'F']), None, rng.choice([2, 2, 1])))
+    # boundary fractions on both sides of np.isclose's tolerance around 1 (|f - 1| <= 1e-5 + 1e-8
+    # skips the scaling of that side; np.allclose over all sides decides is_uniformly_weighted)
+    for eps in [5e-6, -5e-6, 2e-5, -2e-5]:
+        for p in [2, 1, 3]:
+            cv = [0.0, 1.0, 2.0]
+            # 1-d: left fraction 1 + eps, right fraction 1/2 resp. exactly 1
+            out.append(('G', [cv], [-(0.5 + eps)], [2.0], 'float64', None, p))
+            out.append(('G', [cv], [-(0.5 + eps)], [2.5], 'float64', ('c', 2.0), p))
+        # 2-d: first axis exactly 1 on both sides, second axis near 1 / 1
+        out.append(('G', [[0.0, 0.5], [0.0, 1.0, 2.0]], [-0.25, -0.5], [0.75, 2.5 + eps],
+                    'float64', None, 2))
     # uniform grid inside a larger box: arbitrary fractions >= 1/2
-    for rep in range(6 if quick else 40):
+    for rep in range(14 if quick else 60):
         nd = rng.choice([1, 1, 2])
         coords, mins, maxs = [], [], []
         for ax in range(nd):
@@ -622,10 +756,11 @@ def discr_zoo(ctx):
         out.append(('G', coords, mins, maxs, rng.choice(['float64', 'complex128']), wt,
                     rng.choice([2, 2, 1, 3, INF])))
     # non-uniform partitions: tensor-space weighting only
-    for rep in range(2 if quick else 8):
+    for rep in range(6 if quick else 12):
         cv = sorted(rng.sample([0.0, 0.5, 1.0, 2.0, 2.25, 4.0, 5.0], rng.choice([3, 4])))
-        out.append(('N', [cv], 'float64', mk_wt(rng, rng.choice(['none', 'const', 'array']),
-                                                 (len(cv),)), rng.choice([2, 1, INF])))
+        out.append(('N', [cv], 'float64',
+                    mk_wt(rng, ['const', 'array', 'none'][rep % 3], (len(cv),)),
+                    [2, 2, 1, INF, 2, 1.5][rep % 6]))
     return out
 
 
@@ -805,6 +940,10 @@ def run_case(ctx, d, vseed, lines, recs, collect=True):
         bad('space construction failed', '{} {}'.format(*o))
         return finish(ctx, d, rep, problems, False)
     space = o[1]
+    if collect and d[0] == 'U':
+        oi = outcome(lambda: impl_info(space))
+        lines.append(info_line(d))
+        recs.append((d, rep, 'info', oi[1] if oi[0] == 'ok' else oi[0], False, 1.0, RTOL))
     try:
         modes = ['rand', 'rand', 'rand']
         special = rng.choice(['none', 'zero', 'spike', 'one', 'none'])
@@ -814,13 +953,14 @@ def run_case(ctx, d, vseed, lines, recs, collect=True):
     except Exception as e:  # noqa
         bad('element creation failed', '{}: {}'.format(type(e).__name__, e))
         return finish(ctx, d, rep, problems, False)
-    _REL[0] = 1e-4 if single(d) else OTOL
+    _REL[0] = 1e-4 if single(d) else (3e-5 if near1(d) else OTOL)
+    crt = 1e-4 if single(d) else RTOL      # correspondence tolerance (never relaxed)
     otol = _REL[0]
     cplx = is_complex(d)
     a = rng.choice([2.0, -0.5, 4.0, -1.0, 0.25] + ([1j, -2j, 1 + 1j] if cplx else []))
     if is_int(d):
         a = rng.choice([2, -1, 3, -2])   # integer spaces are closed under integer scalars only
-    exact = is_exact(d)
+    exact = is_exact(d) and not near1(d)
     hasin = has_inner(d)
     spec = wire(d)
     p = d_p(d)
@@ -885,7 +1025,7 @@ def run_case(ctx, d, vseed, lines, recs, collect=True):
                     bad('Cauchy-Schwarz violated', '|{}|^2 > {}*{}'.format(ixy, ixx, iyy))
             if collect:
                 lines.append('inner sp={} x={} y={}'.format(spec, cwire(X), cwire(Y)))
-                recs.append((d, rep, 'inner', ixy, exact, scale, otol))
+                recs.append((d, rep, 'inner', ixy, exact, scale, crt))
     else:
         o_xy = outcome(lambda: x.inner(y))
         if o_xy[0] == 'ok':
@@ -894,7 +1034,7 @@ def run_case(ctx, d, vseed, lines, recs, collect=True):
             bad('inner raised', '{} {}'.format(*o_xy))
         if collect and o_xy[0] == 'err:notimpl':
             lines.append('inner sp={} x={} y={}'.format(spec, cwire(X), cwire(Y)))
-            recs.append((d, rep, 'inner', 'err:notimpl', True, scale, otol))
+            recs.append((d, rep, 'inner', 'err:notimpl', True, scale, crt))
 
     # ---- norm
     o_nx = outcome(lambda: x.norm())
@@ -906,7 +1046,7 @@ def run_case(ctx, d, vseed, lines, recs, collect=True):
         bad('norm raised', '{} {}'.format(*firstbad))
         if collect and o_nx[0] == 'err:notimpl':
             lines.append('norm sp={} x={}'.format(spec, cwire(X)))
-            recs.append((d, rep, 'norm', 'err:notimpl', False, scale, otol))
+            recs.append((d, rep, 'norm', 'err:notimpl', False, scale, crt))
     else:
         nx, nz, nax, nxz = [float(o[1]) for o in (o_nx, o_nz, o_nax, o_nxz)]
         rn = ref_norm(d, X)
@@ -925,7 +1065,7 @@ def run_case(ctx, d, vseed, lines, recs, collect=True):
             bad('norm^2 != inner(x,x) for exponent 2', '{!r}^2 vs {!r}'.format(nx, o_xx[1]))
         if collect:
             lines.append('norm sp={} x={}'.format(spec, cwire(X)))
-            recs.append((d, rep, 'norm', nx, False, scale, otol))
+            recs.append((d, rep, 'norm', nx, False, scale, crt))
 
     # ---- dist
     o_dxy = outcome(lambda: x.dist(y))
@@ -938,7 +1078,7 @@ def run_case(ctx, d, vseed, lines, recs, collect=True):
         if collect and o_dxy[0] in ('ok', 'err:notimpl'):
             lines.append('dist sp={} x={} y={}'.format(spec, cwire(X), cwire(Y)))
             recs.append((d, rep, 'dist', float(o_dxy[1]) if o_dxy[0] == 'ok' else 'err:notimpl',
-                         False, scale, otol))
+                         False, scale, crt))
     else:
         dxy, dyx, dxx, nd = [float(o[1]) for o in (o_dxy, o_dyx, o_dxx, o_nd)]
         if not close(dxy, nd):
@@ -949,7 +1089,7 @@ def run_case(ctx, d, vseed, lines, recs, collect=True):
             bad('dist(x,x) != 0', repr(dxx))
         if collect:
             lines.append('dist sp={} x={} y={}'.format(spec, cwire(X), cwire(Y)))
-            recs.append((d, rep, 'dist', dxy, False, scale, otol))
+            recs.append((d, rep, 'dist', dxy, False, scale, crt))
 
     # ---- ||1||^p = volume of the domain (default cell-volume weighting)
     if d[0] in ('U', 'G') and d[d_wt(d)] is None and p != INF:
@@ -957,7 +1097,7 @@ def run_case(ctx, d, vseed, lines, recs, collect=True):
         vol = float(volume(d))
         if o1[0] != 'ok':
             bad('one().norm() raised', str(o1)[:120])
-        elif not close(float(o1[1]) ** p, vol, rel=1e-9):
+        elif not close(float(o1[1]) ** p, vol, rel=1e-9 if not near1(d) else 3e-5):
             bad('||1||^p != volume of the domain',
                 'one().norm()**{}={!r} volume={!r} cell_volume={!r} fractions={}'.format(
                     p, float(o1[1]) ** p, vol, outcome(lambda: space.cell_volume)[1],
@@ -975,23 +1115,36 @@ def finish(ctx, d, rep, problems, nontrivial):
 
 
 def compare(ctx, recs, outs):
-    for (d, rep, op, impl, exact, scale, otol), ans in zip(recs, outs):
-        rtol = 1e-4 if otol > OTOL else RTOL
+    for (d, rep, op, impl, exact, scale, rtol), ans in zip(recs, outs):
         case = {'op': op, 'space': wire(d)[:300], 'vseed': rep['vseed']}
-        ctx.hit('model/{}/{}/{}'.format(op, d[0], pclass(d_p(d))))
+        if op == 'info':
+            compare_info(ctx, d, case, impl, ans)
+            continue
         if isinstance(impl, str):
             if ans != impl:
                 ctx.disagree(case, impl, ans)
+            elif op == 'inner':
+                ctx.hit('inner/notimpl')
             continue
         if not ans.startswith('ok v='):
             ctx.disagree(case, impl, ans)
             continue
-        tok = ans[len('ok v='):]
+        for b in branches_of(d, op):
+            ctx.hit(b)
+        fields = dict(t.split('=', 1) for t in ans.split()[1:])
+        tok = fields['v']
         if op == 'inner':
-            if ':' in tok:
-                mr, mi = [core.pfrac(t) for t in tok.split(':')]
-            else:
-                mr, mi = core.pfrac(tok), Fraction(0)
+            def pc(t):
+                if ':' in t:
+                    a, b = [core.pfrac(u) for u in t.split(':')]
+                    return a, b
+                return core.pfrac(t), Fraction(0)
+            mr, mi = pc(tok)
+            # the theorems are about the instantiation with the idealised test `frac = 1`:
+            # it must give the same value unless a fraction is inside isclose's tolerance
+            if not near1(d) and pc(fields.get('vi', '')) != (mr, mi):
+                ctx.disagree(case, 'model with np.isclose: ' + tok,
+                             'model with frac = 1 (theorems): ' + fields.get('vi', '?'))
             if exact:
                 if cfrac(impl) != (mr, mi):
                     ctx.disagree(case, impl, tok)
@@ -1003,6 +1156,37 @@ def compare(ctx, recs, outs):
             m = float(core.pfrac(tok))
             if abs(m - impl) > rtol * max(abs(m), abs(impl)) + ATOL * scale:
                 ctx.disagree(case, repr(impl), repr(m))
+
+
+def info_line(d):
+    """`info` for the geometry of a uniform_discr description (default weighting, p = 2)."""
+    g = ('U', d[1], d[2], d[3], None, 2)
+    return 'info sp=' + wire(g)
+
+
+def impl_info(space):
+    part = space.partition
+    return {'n': [int(n) for n in part.shape],
+            'fl': [float(f[0]) for f in part.boundary_cell_fractions],
+            'fr': [float(f[1]) for f in part.boundary_cell_fractions],
+            'w': float(part.cell_volume)}
+
+
+def compare_info(ctx, d, case, impl, ans):
+    """Model's node count / boundary fractions / cell volume of `uniform_discr` (mkAxis) vs
+    partition.shape / boundary_cell_fractions / cell_volume of the real code."""
+    if isinstance(impl, str) or not ans.startswith('ok n='):
+        ctx.disagree(case, impl, ans)
+        return
+    ctx.hit('info/uniformDiscr')
+    f = dict(t.split('=', 1) for t in ans.split()[1:])
+    mn = [int(t) for t in f['n'].split(',')]
+    mfl, mfr, mw = core.pfl(f['fl']), core.pfl(f['fr']), core.pfrac(f['w'])
+    ok = mn == impl['n']
+    for m, i in zip(mfl + mfr + [mw], impl['fl'] + impl['fr'] + [impl['w']]):
+        ok = ok and abs(float(m) - i) <= 1e-12 * max(abs(i), 1.0)
+    if not ok:
+        ctx.disagree(case, impl, ans)
 
 
 # ---------------------------------------------------------------------------
